@@ -14,7 +14,6 @@ open Reader
 /-- every wire constant in the current headers equals its documented value -/
 theorem wire_consts_documented : codeCfg = docCfg := by decide
 
-theorem codeCfg_ok : CfgOK codeCfg := by rw [wire_consts_documented]; decide
 
 /-- the documented reader recovers the documented content from the documented bytes: the example image in hex -/
 example : encode (Serde.fixed 8) docCfg d6Witness =
